@@ -333,12 +333,12 @@ func fnInPkgs(fn *ssa.Function, pkgs []string) bool {
 // E3: guarded fields
 
 type guardSpec struct {
-	structName string            // e.g. "ImmuStore"
-	lock       string            // e.g. "ImmuStore.commitStateRWMutex"
-	fields     []string          // guarded field names
-	callerHolds map[string]string // fn name -> mode "W"|"R": functions documented to require the lock on entry
-	exempt     map[string]string // fn name -> reason (constructors, …)
-	altLock    map[string]string // field -> alternative lock accepted (documented exceptions)
+	structName   string            // e.g. "ImmuStore"
+	lock         string            // e.g. "ImmuStore.commitStateRWMutex"
+	fields       []string          // guarded field names
+	callerHolds  map[string]string // fn name -> mode "W"|"R": functions documented to require the lock on entry
+	exempt       map[string]string // fn name -> reason (constructors, …)
+	altLock      map[string]string // field -> alternative lock accepted (documented exceptions)
 	exemptAccess map[string]string // "fn:T.f" -> reason: single documented lock-free access
 }
 
